@@ -195,6 +195,9 @@ func (c *SpecCtx) eval(e Expr) Val {
 	case *EBinary:
 		return c.binary(x)
 	case *ESel:
+		if o := c.pkgObject(x); o != nil {
+			return c.object(o)
+		}
 		// struct value field, or pointer field (memory)
 		if a, t, ok := c.tryAddr(e); ok {
 			return Val{T: c.p.loadIn(c.st, a, t, false), Ty: t}
@@ -270,6 +273,12 @@ func (c *SpecCtx) ident(name string) Val {
 	if v, ok := c.params[name]; ok {
 		return v
 	}
+	if cell, ok := c.closureCells[name]; ok {
+		if pt, ok := cell.Ty.Underlying().(*types.Pointer); ok {
+			return Val{T: c.p.loadIn(c.st, cell.T, pt.Elem(), false), Ty: pt.Elem()}
+		}
+		return cell
+	}
 	// package-level object
 	if c.pkg != nil {
 		if o := c.pkg.Scope().Lookup(name); o != nil {
@@ -286,6 +295,34 @@ func (c *SpecCtx) ident(name string) Val {
 	}
 	c.fail("unknown identifier %s", name)
 	return Val{}
+}
+
+// pkgObject: pkg.Name where pkg is an imported package name that is not shadowed by a variable.
+func (c *SpecCtx) pkgObject(x *ESel) types.Object {
+	id, ok := x.X.(*EIdent)
+	if !ok {
+		return nil
+	}
+	if _, bound := c.vars[id.Name]; bound {
+		return nil
+	}
+	if _, bound := c.params[id.Name]; bound {
+		return nil
+	}
+	if _, bound := c.closureCells[id.Name]; bound {
+		return nil
+	}
+	for _, sp := range c.env().prog.AllPackages() {
+		if sp.Pkg.Name() == id.Name {
+			if o := sp.Pkg.Scope().Lookup(x.Name); o != nil {
+				switch o.(type) {
+				case *types.Var, *types.Const:
+					return o
+				}
+			}
+		}
+	}
+	return nil
 }
 
 func (c *SpecCtx) ghostVarAddr(name string) string {
@@ -365,6 +402,11 @@ func (c *SpecCtx) addrOpt(e Expr) (string, types.Type) {
 		if _, bound := c.vars[x.Name]; bound {
 			return "", nil
 		}
+		if cell, ok := c.closureCells[x.Name]; ok {
+			if pt, ok := cell.Ty.Underlying().(*types.Pointer); ok {
+				return cell.T, pt.Elem()
+			}
+		}
 		if c.fn != nil && !c.inOld {
 			if a, t, ok := c.p.localCell(x.Name); ok {
 				return a, t
@@ -385,6 +427,16 @@ func (c *SpecCtx) addrOpt(e Expr) (string, types.Type) {
 			}
 		}
 	case *ESel:
+		if o := c.pkgObject(x); o != nil {
+			if v, ok := o.(*types.Var); ok {
+				if sp := env.pkgs[v.Pkg().Path()]; sp != nil {
+					if g, ok := sp.Members[v.Name()].(*ssa.Global); ok {
+						return c.p.val(g).T, v.Type()
+					}
+				}
+			}
+			return "", nil
+		}
 		// base: pointer value, or addressable struct
 		var base string
 		var st types.Type
@@ -681,6 +733,16 @@ func (c *SpecCtx) call(x *ECall) Val {
 		}
 		t := c.resolveType(tn)
 		return Val{T: fmt.Sprintf("(= (iface_type %s) %d)", v.T, env.typeTagOf(t)), Ty: tBool}
+	case "any":
+		v := arg(0)
+		if c.sort(v.Ty) == "Iface" {
+			return v
+		}
+		return Val{T: fmt.Sprintf("(%s %s)", env.mkIfaceFn(v.Ty), v.T), Ty: types.NewInterfaceType(nil, nil)}
+	case "payload":
+		v := arg(0)
+		t := c.resolveType(x.Args[1].String())
+		return Val{T: fmt.Sprintf("(%s %s)", env.ifacePayloadFn(t), v.T), Ty: t}
 	case "ifaceRef":
 		v := arg(0)
 		return Val{T: "(iface_ref " + v.T + ")", Ty: types.Typ[types.UnsafePointer]}
